@@ -344,6 +344,26 @@ def _(v):
     saves = [(k, h) for k, h in flow.events.items() if k[1] == "call" and k[2] == "reb_simulation_save_to_stream"]
     v.ground("snapshot_endpoint_serialises_with_mutex_held", len(saves) >= 1 and all(h == {1} for _k, h in saves),
              "reb_simulation_save_to_stream at lines %s, held %s" % ([k[0] for k, _h in saves], [sorted(h) for _k, h in saves]))
+    # "serving requests never alters the trajectory": whatever the server thread calls with the simulation -- even under the
+    # mutex -- may write only the serialiser's frame (cached SEI constants, the IAS15 allocation counter [known finding],
+    # messages) or the run-control word
+    callee_names = sorted({k[2] for k in flow.events if k[1] == "call"})
+    S2 = summaries_for(L, extra=callee_names)
+    for key in sorted(flow.events, key=lambda k: (k[0] or 0, str(k[3]))):
+        line, kind, what, nid = key
+        if kind != "call":
+            continue
+        node = next(x for x in frames.walk(flow.fn) if x.get("id") == nid)
+        if str(what).startswith("(*"):
+            continue            # user callback through a function pointer (key_callback): outside the claim, see P.assume
+        paths, summ = frame_on_sim(S2, what, node)
+        if paths is None:
+            v.ground("served.call.%s.write_frame_known" % nm(what), False, "line %s: callee %s receives the simulation but has no summary" % (line, what))
+            continue
+        bad = sorted(p for p in paths if not (p.split(".")[0] in ("messages", "status", "server_data") or p.startswith("ri_sei.") or
+                                              p == "ri_ias15.N_allocated"))
+        v.ground("served.call.%s.writes_only_serialiser_frame" % nm(what), not bad and not summ.indirect,
+                 "line %s: %s may write %s of the simulation%s" % (line, what, bad[:12], ("; calls user callbacks %s" % sorted(summ.indirect)) if summ.indirect else ""))
     n = check_events(v, "access", "reb_server_start", flow, S, include_reads=True)
     v.ground("events_found", len(flow.events) >= 10, "%d accesses to the simulation, %d outside the lock" % (len(flow.events), n))
     # no other function of the server thread touches the simulation: reb_server_start's callees with a simulation argument
